@@ -56,7 +56,8 @@ def token_text(tk: T.Dict[str, T.Any], rnd: T.Optional[random.Random] = None) ->
     return SYMTEXT[t]
 
 
-def render(tokens: T.Sequence[T.Dict[str, T.Any]], rnd: random.Random, trivia: bool = True) -> T.Tuple[str, T.List[T.Tuple[int, int]]]:
+def render(tokens: T.Sequence[T.Dict[str, T.Any]], rnd: random.Random, trivia: bool = True,
+           continuations: bool = True, comments: float = 0.2) -> T.Tuple[str, T.List[T.Tuple[int, int]]]:
     """tokens -> (text, [(start, end) byte extent of each token])."""
     out: T.List[str] = []
     spans: T.List[T.Tuple[int, int]] = []
@@ -82,9 +83,9 @@ def render(tokens: T.Sequence[T.Dict[str, T.Any]], rnd: random.Random, trivia: b
             r = rnd.random()
             if need or r < 0.35:
                 emit(rnd.choice([' ', ' ', '  ', '\t', ' \t ']))
-            if prev is not None and prev != 'eol' and r > 0.93:
+            if continuations and prev is not None and prev != 'eol' and r > 0.93:
                 emit('\\\n' + rnd.choice(['', '  ']))       # line continuation is whitespace
-            if t == 'eol' and rnd.random() < 0.2:
+            if t == 'eol' and rnd.random() < comments:
                 emit(rnd.choice(['# comment', '#', ' # a, b = (c']))
         elif need:
             emit(' ')
@@ -313,7 +314,9 @@ def merge_batches(batches: T.Iterable[T.Dict[str, T.Any]]) -> T.Tuple[T.List[T.D
     for b in batches:
         remap = [alpha.add(t) for t in b['alphabet']]
         for c in b['cases']:
-            c['t'] = [remap[j] for j in c['t']]
+            for key in ('t', 'tin', 'tout'):
+                if key in c:
+                    c[key] = [remap[j] for j in c[key]]
             cases.append(c)
     return alpha.items, cases
 
